@@ -325,8 +325,14 @@ def rule_constants(model: Model, unit: CppUnit):
             obs.append(Ob("CPP-CONST", k, ERROR, f"cpp/{cf.file}", "local tolerance", str(e)))
     # the damping factor itself (used in the truncation test): a numeric constant on both sides, same value
     k = "cpp:CPP-CONST:damp"
-    py_consts = {n.targets[0].id: n.value.value for n in f.node.body if isinstance(n, ast.Assign) and isinstance(n.targets[0], ast.Name)
-                 and isinstance(n.value, ast.Constant) and isinstance(n.value.value, (int, float)) and not isinstance(n.value.value, bool)}
+    from ..e5.interp import _fold_const
+
+    def _num(v):
+        if isinstance(v, ast.Name) and v.id in f.module.global_consts:
+            v = f.module.global_consts[v.id]       # damp = _RESIDUAL_DAMP: a module constant bound once
+        return _fold_const(v)
+    py_consts = {n.targets[0].id: _num(n.value) for n in f.node.body if isinstance(n, ast.Assign) and isinstance(n.targets[0], ast.Name)
+                 and _num(n.value) is not None}
     used = set()
     for n, _ in py_forms:
         used |= {x.id for x in ast.walk(n.value) if isinstance(x, ast.Name) and x.id in py_consts}
